@@ -66,6 +66,12 @@ def synth_table(kind, n=60, pmax=10000.0, rng=None):
         mu = 0.02
         return dict(pressure=p, pseudopressure=(p ** 2 - p[0] ** 2) / mu, compressibility=1 / p,
                     viscosity=np.full(n, mu), **{"z-factor": np.ones(n)}, density=0.003 * p)
+    if kind == "shifted":
+        # the liquid table with its pseudopressure measured from a reference pressure INSIDE the table (pseudopressure is
+        # defined up to its reference): negative below the reference, so the scaled frac-face value can be negative
+        tb = synth_table("liquid", n, pmax, rng)
+        tb["pseudopressure"] = tb["pseudopressure"] - tb["pseudopressure"][n // 3]
+        return tb
     if kind in ("liquid", "stiff"):  # constant compressibility and viscosity: constant diffusivity
         p = np.linspace(50.0, pmax, n)
         c, mu, p0 = 2e-4, 0.5, 50.0
@@ -109,6 +115,13 @@ def time_grid(kind, nt, tmax, rng):
         return np.concatenate([[0.0], np.sort(rng.uniform(0, tmax, nt - 1))])
     if kind == "huge":
         return np.concatenate([[0.0], np.cumsum(rng.choice([1e-3, 1.0, 50.0, 1e3], nt - 1))])
+    if kind == "jitter":
+        # nearly, but not exactly, equal steps that drift: each step differs from its predecessor by ~2e-6 relative (less than
+        # any default isclose/allclose tolerance) while the last is ~1 + 2e-6 nt times the first
+        return np.concatenate([[0.0], np.cumsum((tmax / (nt - 1)) * (1 + 2e-6) ** np.arange(nt - 1) * (1 + 1e-7 * rng.standard_normal(nt - 1)))])
+    if kind == "tiny":
+        # increments far below 1e-8 at first (absolute tolerances of isclose/allclose), growing geometrically to tmax
+        return np.concatenate([[0.0], np.cumsum(np.geomspace(1e-11, max(tmax, 1e-3), nt - 1))])
     raise KeyError(kind)
 
 
@@ -132,6 +145,8 @@ def run_impl(case):
                     # the same result as for the ascending table - which is what the model (ascending tables) is given
                     tb = {k: v[::-1].copy() for k, v in tb.items()}
                 cls = FlowPropertiesSimple if case.get("simple") else FlowProperties
+                if case.get("table_obj") is not None:
+                    tb = case["table_obj"]     # the caller's own container (e.g. one DataFrame reused for several constructions)
                 fp = cls(tb, case["pi"])
                 out["m_i"] = float(fp.m_i)
                 sched = case.get("sched")
@@ -320,7 +335,7 @@ def run_cases(ctx, cases, impls, tag, shard=4, with_resid=True, timeout=900):
 
 
 # ------------------------------------------------------------------------------ case generation
-TABLE_KINDS = ["shipped", "haynesville", "ideal", "liquid", "falling", "kinked", "random", "oil", "stiff"]
+TABLE_KINDS = ["shipped", "haynesville", "ideal", "liquid", "falling", "kinked", "random", "oil", "stiff", "shifted"]
 
 
 def make_table(kind, rng, quick=True):
@@ -338,7 +353,7 @@ def gen_cases(rng, n, quick=True, kinds=("single", "ideal"), nx_choices=None, nt
     cases = []
     nx_choices = nx_choices or ([3, 5, 10, 30, 60] if quick else [3, 4, 10, 30, 80, 150, 400])
     nt_max = nt_max or (30 if quick else 120)
-    grids = ["uniform", "quadratic", "geometric", "random", "huge"]
+    grids = ["uniform", "quadratic", "geometric", "random", "huge", "jitter", "tiny"]
     for k in range(n):
         kind = kinds[k % len(kinds)]
         nx = int(nx_choices[int(rng.integers(0, len(nx_choices)))])
